@@ -48,6 +48,16 @@ class PostgreSQLQueryBuilder(QueryBuilder):
         newone._on_conflict_do_updates = copy(self._on_conflict_do_updates)
         return newone
 
+    def replace_table(  # type:ignore[override]
+        self, current_table: Any, new_table: Any
+    ) -> "PostgreSQLQueryBuilder":
+        newone = super().replace_table(current_table, new_table)
+        newone._returns = [term.replace_table(current_table, new_table) for term in self._returns]
+        newone._distinct_on = [
+            term.replace_table(current_table, new_table) for term in self._distinct_on
+        ]
+        return newone
+
     @builder
     def distinct_on(self, *fields: str | Term) -> "PostgreSQLQueryBuilder":  # type:ignore[return]
         for field in fields:
